@@ -38,6 +38,7 @@ class AtSpec:
     nth: int
     where: str        # before | after | replace
     text: list = field(default_factory=list)
+    label: str = ""
 
 
 @dataclass
@@ -106,9 +107,15 @@ def parse_vspec(path):
             target = cur.loops.setdefault(int(m.group(1)), LoopSpec())
             section = None
             continue
-        m = re.match(r'^at\s+"(.*)"(?:\s+#(\d+))?\s+(before|after|replace)$', line)
+        if line == "at end":
+            # proof hint placed before the closing brace of the function body (bodies ending in a statement only)
+            a = AtSpec(None, 1, "end")
+            cur.ats.append(a)
+            section = ("at", a)
+            continue
+        m = re.match(r'^at\s+"(.*)"(?:\s+#(\d+))?\s+(before|after|replace)(?:\s+\[([A-Za-z0-9_.\-]+)\])?$', line)
         if m:
-            a = AtSpec(m.group(1), int(m.group(2) or 1), m.group(3))
+            a = AtSpec(m.group(1), int(m.group(2) or 1), m.group(3), label=m.group(4) or "")
             cur.ats.append(a)
             section = ("at", a)
             continue
@@ -165,6 +172,7 @@ class Gen:
     def __init__(self):
         self.lines = []
         self.origin = []     # per line: dict(kind=..., ...)
+        self.hint_labels = {}
 
     def emit(self, text, **origin):
         for l in text.split("\n"):
@@ -172,9 +180,19 @@ class Gen:
             self.origin.append(dict(origin))
 
     def emit_src(self, text, file, first_line, fn):
-        for k, l in enumerate(text.split("\n")):
+        k = 0
+        for l in text.split("\n"):
+            m = re.search(r" /\*@hint:([A-Za-z0-9_.\-]*)@\*/$", l)
+            if m:
+                # a proof hint spliced from contracts.vspec (not source text)
+                self.lines.append(l[:m.start()])
+                self.origin.append(dict(kind="hint", label=m.group(1), fn=fn))
+                if m.group(1):
+                    self.hint_labels.setdefault(m.group(1), dict(fn=fn, kind="hint", line=len(self.lines), text=l[:m.start()].strip()))
+                continue
             self.lines.append(l)
             self.origin.append(dict(kind="src", file=file, line=first_line + k, fn=fn))
+            k += 1
 
     def text(self):
         return "\n".join(self.lines) + "\n"
@@ -270,6 +288,8 @@ class Unit:
         idents, pats = self._typemap()
         text, n = X.r4_typemap(text, idents, pats); self._log("R4-typemap", fnkey, n)
         text, n = X.r13_bool_bitor(text); self._log("R13-bool-bitor", fnkey, n)
+        text, n = X.r14_continue_to_else(text); self._log("R14-continue-to-else", fnkey, n)
+        text, n = X.r14_tail_continue(text); self._log("R14-tail-continue", fnkey, n)
         return text
 
     # -- generation -----------------------------------------------------------
@@ -296,6 +316,8 @@ class Unit:
                 if dropped:
                     self.dropped.append(dict(struct=ty["name"], fields=dropped))
                     self._log("R12-struct-slice", ty["name"], len(dropped), "dropped fields: " + ",".join(dropped))
+            elif kind in ("const", "static"):
+                text = "pub " + re.sub(r"^\s*pub(\([^)]*\))?\s+", "", X._strip_comments(src)).strip() + "\n"
             else:
                 text = X.r12_enum(src)
             text = self.rewrite_common(text, ty["name"])
@@ -317,6 +339,9 @@ class Unit:
             self._emit_file(g, p, "lemma")
         g.emit("} // verus!", kind="gen")
         g.emit("fn main() {}", kind="gen")
+        for lab, info in g.hint_labels.items():
+            if not info["fn"].endswith("__smoke"):
+                self.labels.setdefault(lab, info)
         return g
 
     def _emit_file(self, g, path, kind):
@@ -362,6 +387,10 @@ class Unit:
         text, nfor = X.r7_forlabel(text); self._log("R7-forlabel", fnkey, nfor)
         # 'at' insertions (proof hints) — anchors are source fragments; a lost anchor is undecided
         for a in sp.ats:
+            if a.where == "end":
+                le = text.rstrip().rfind("}")
+                text = text[:le] + "\n".join(a.text) + "\n" + text[le:]
+                continue
             pos = -1
             start = 0
             for _ in range(a.nth):
@@ -369,7 +398,7 @@ class Unit:
                 if pos < 0:
                     raise X.Undecided(f"lost anchor: proof-hint anchor {a.anchor!r} (#{a.nth}) not found in {fnkey}")
                 start = pos + 1
-            ins = "\n".join(a.text)
+            ins = "\n".join(f"{tl} /*@hint:{a.label}@*/" for tl in a.text)
             if a.where == "before":
                 # insert at start of the line containing the anchor
                 ls = text.rfind("\n", 0, pos) + 1
